@@ -210,6 +210,31 @@ func jwsCall(p []byte) (reply []byte) {
 		if err != nil {
 			out = append(out, "JWS built from the signer's headers does not verify after the signer's header object changed: "+err.Error())
 		}
+		// (3) the rarely used unprotected headers: they are not part of what is signed, and a JWS built with them verifies
+		j3, err := verifhooks.NewJWSCompactUnprotected(jws.Headers{"alg": k.Alg(), "kid": "key-1"}, jws.Headers{"note": "unprotected", "x5u": "https://u.example"}, msg, libSigner(k, ""), false)
+		if err == nil {
+			_, err = verifhooks.VerifyJWS(j3, pub)
+		}
+		if err != nil {
+			out = append(out, "JWS built with unprotected headers does not verify under its key: "+err.Error())
+		}
+		// (4) signer objects whose algorithm label is another registered name than the one that goes with the key's curve: the
+		// label is a header value, the key decides how the signature is made and checked
+		if k.Type != "Ed25519" {
+			for _, label := range []string{"ES256", "ES384", "ES512", "ES256K"} {
+				if label == k.Alg() {
+					continue
+				}
+				j4, err := verifhooks.SignPayload(msg, ecsigner.New(k.ECDSAPrivate(), label, "k"))
+				if err == nil {
+					_, err = verifhooks.VerifyJWS(j4, pub)
+				}
+				if err != nil {
+					out = append(out, "JWS signed by a "+k.Type+" signer labelled "+label+" does not verify under its key: "+err.Error())
+					break
+				}
+			}
+		}
 		if len(out) > 0 {
 			return []byte("ERR:" + strings.Join(out, "; "))
 		}
@@ -255,7 +280,7 @@ func cloneJWK(m map[string]string) map[string]string {
 }
 
 func checkC09(c *hx.Ctx) {
-	c.Rule("for each of the five key types: genuine compact JWS built independently (harness/ref) and by the library's SignPayload, headers {alg}, {alg,kid} and - signed by the library - {alg[,kid],b64:true|false}, several payload sizes; oracle (constructive): verifies under its key; every single-byte alteration (2 bit patterns) of the decoded protected header that changes its value or breaks it, headers with a repeated member name (first, last, equal value), every byte of the payload, the detached-payload option with the genuine and with another payload (whatever the payload segment holds), every byte of the signature, truncations/extensions/empty/swapped/zeroed r or s, every pairing with every other key of the universe, and JWKs made of the genuine characters split at another member boundary (verified in one process right after and right before the genuine JWK) must be rejected; a JWS whose header objects (the caller's or the signer's) are changed between construction and serialization still verifies; a library signer object that signs twice must leave its first signature intact and valid; eight goroutines verifying genuine and altered JWS of equal length (and signing) at once must get the outcomes of the calls made alone (race detector in the thorough tier) (the ECDSA twin (r,n-s) is counted, not judged); malformed JWKs (missing/unknown kty or crv, coordinate length +-1, off-curve point, wrong Ed25519 size), headers without alg or with non-boolean b64, and structured-random compact strings must yield an error and never a panic; executed through the verif-tagged re-export of internal/jws in crash-isolated workers; non-trivial = altered or malformed input; distinct = distinct (jws, jwk) inputs")
+	c.Rule("for each of the five key types: genuine compact JWS built independently (harness/ref) and by the library's SignPayload, headers {alg}, {alg,kid} and - signed by the library - {alg[,kid],b64:true|false}, several payload sizes; oracle (constructive): verifies under its key; every single-byte alteration (2 bit patterns) of the decoded protected header that changes its value or breaks it, headers with a repeated member name (first, last, equal value), every byte of the payload, the detached-payload option with the genuine and with another payload (whatever the payload segment holds), every byte of the signature, truncations/extensions/empty/swapped/zeroed r or s, every pairing with every other key of the universe, and JWKs made of the genuine characters split at another member boundary (verified in one process right after and right before the genuine JWK) must be rejected; a JWS whose header objects (the caller's or the signer's) are changed between construction and serialization still verifies, so does one built with unprotected headers or by a signer whose algorithm label does not go with its curve; a library signer object that signs twice must leave its first signature intact and valid; eight goroutines verifying genuine and altered JWS of equal length (and signing) at once must get the outcomes of the calls made alone (race detector in the thorough tier) (the ECDSA twin (r,n-s) is counted, not judged); malformed JWKs (missing/unknown kty or crv, coordinate length +-1, off-curve point, wrong Ed25519 size), headers without alg or with non-boolean b64, and structured-random compact strings must yield an error and never a panic; executed through the verif-tagged re-export of internal/jws in crash-isolated workers; non-trivial = altered or malformed input; distinct = distinct (jws, jwk) inputs")
 	c.Assume("Go crypto and btcec are trusted; a header edit counts as an alteration only if the header value changes or stops parsing (DESIGN Appendix B)")
 	pool := hx.NewPool(c, "jws", 16, 4*1024*1024, 30*time.Second)
 	defer pool.Close()
